@@ -1,5 +1,7 @@
 import Driver.Codec
 import IweModel.Model.Wf
+import IweModel.Model.Squash
+import IweModel.Model.Paths
 
 namespace Iwe.GraphOps
 open Iwe Codec
@@ -9,30 +11,34 @@ def sortKeys (ks : List String) : List String := Graph.sortBy (fun a b => a < b)
 def sortNat (ks : List Nat) : List Nat := Graph.sortBy (fun a b => a < b) ks
 
 /-- canonical observation of a graph state (what the Rust harness prints for the real `Graph`) -/
-def stateS (g : Graph) (nlines : List (String × Nat)) : Sexp :=
+def stateS (want : List String) (g : Graph) (nlines : List (String × Nat)) : Sexp :=
+  let on (name : String) (x : Unit → Sexp) : Sexp := if want.isEmpty || want.contains name then x () else .list [.atom name, .atom "skipped"]
   let keys := sortKeys (g.keys.map (·.1))
-  let arena := Sexp.list (.atom "arena" :: g.arena.map gnodeS)
-  let keysS := Sexp.list (.atom "keys" :: keys.map fun k => .list [.str k, optNatS (assocGet g.keys k)])
-  let titles := Sexp.list (.atom "titles" :: keys.map fun k => .list [.str k, optStrS (g.title k)])
-  let md := Sexp.list (.atom "md" :: keys.map fun k => .list [.str k, exceptS Sexp.str (g.toMarkdown k)])
-  let brefs := Sexp.list (.atom "brefs" :: keys.map fun k => .list (.str k :: (sortNat (g.blockReferencesTo k)).map natS))
-  let irefs := Sexp.list (.atom "irefs" :: keys.map fun k => .list (.str k :: (sortNat (g.inlineReferencesTo k)).map natS))
-  let ranges := Sexp.list (.atom "ranges" :: (List.range g.arena.length).filterMap fun id =>
+  let arena := on "arena" fun _ => Sexp.list (.atom "arena" :: g.arena.map gnodeS)
+  let keysS := on "keys" fun _ => Sexp.list (.atom "keys" :: keys.map fun k => .list [.str k, optNatS (assocGet g.keys k)])
+  let titles := on "titles" fun _ => Sexp.list (.atom "titles" :: keys.map fun k => .list [.str k, optStrS (g.title k)])
+  let md := on "md" fun _ => Sexp.list (.atom "md" :: keys.map fun k => .list [.str k, exceptS Sexp.str (g.toMarkdown k)])
+  let brefs := on "brefs" fun _ => Sexp.list (.atom "brefs" :: keys.map fun k => .list (.str k :: (sortNat (g.blockReferencesTo k)).map natS))
+  let irefs := on "irefs" fun _ => Sexp.list (.atom "irefs" :: keys.map fun k => .list (.str k :: (sortNat (g.inlineReferencesTo k)).map natS))
+  let ranges := on "ranges" fun _ => Sexp.list (.atom "ranges" :: (List.range g.arena.length).filterMap fun id =>
     (g.nodeLineRange id).map fun r => .list [natS id, natS r.start, natS r.stop])
-  let atS := Sexp.list (.atom "at" :: keys.map fun k =>
+  let atS := on "at" fun _ => Sexp.list (.atom "at" :: keys.map fun k =>
     .list (.str k :: (List.range ((assocGet nlines k).getD 0)).map fun line =>
       match g.nodeIdAt k line with
       | .ok r => optNatS r
       | .error e => .list [.atom "error", siteS e]))
-  let metas := Sexp.list (.atom "meta" :: keys.map fun k => .list [.str k, optStrS (assocGet g.metadata k)])
-  .list [.atom "state", arena, keysS, titles, md, brefs, irefs, ranges, atS, metas]
+  let paths := on "paths" fun _ => Sexp.list (.atom "paths" :: (Paths.graphToPaths g).map fun p => .list (p.map natS))
+  let spaths := on "spaths" fun _ => Sexp.list (.atom "spaths" :: (Paths.searchPaths g).map fun sp =>
+    .list [.str sp.text, natS sp.rank, .str sp.key, .atom (if sp.root then "true" else "false"), natS sp.line, .list (sp.path.map natS)])
+  let metas := on "meta" fun _ => Sexp.list (.atom "meta" :: keys.map fun k => .list [.str k, optStrS (assocGet g.metadata k)])
+  .list [.atom "state", arena, keysS, titles, md, brefs, irefs, ranges, atS, metas, paths, spaths]
 
 def entry? : Sexp → Except String (String × Nat × Document)
   | .list [.str k, n, d] => do return (k, ← nat? n, ← document? d)
   | _ => .error "bad entry"
 
 /-- `(graph.history #ext (import entry*) (steps entry*))` -/
-def history (ext : String) (imp steps : List Sexp) : Except String Sexp := do
+def history (want : List String) (ext : String) (imp steps : List Sexp) : Except String Sexp := do
   let imp ← imp.mapM entry?
   let steps ← steps.mapM entry?
   let mut nlines : List (String × Nat) := imp.map fun (k, n, _) => (keyFromFileName k, n)
@@ -40,7 +46,7 @@ def history (ext : String) (imp steps : List Sexp) : Except String Sexp := do
   | .error e => return .list [.atom "states", .list [.atom "error", siteS e]]
   | .ok g0 =>
     let mut g := g0
-    let mut out : Array Sexp := #[stateS g nlines]
+    let mut out : Array Sexp := #[stateS want g nlines]
     for (k, n, d) in steps do
       match g.updateKey k d with
       | .error e =>
@@ -49,7 +55,7 @@ def history (ext : String) (imp steps : List Sexp) : Except String Sexp := do
       | .ok g' =>
         g := g'
         nlines := assocSet nlines k n
-        out := out.push (stateS g nlines)
+        out := out.push (stateS want g nlines)
     return .list (.atom "states" :: out.toList)
 
 end Iwe.GraphOps
@@ -78,5 +84,50 @@ def arenaNav (nodes : List Sexp) : Except String Sexp := do
       optStrS ((Arena.toDocument a fuel id).bind fun d => (Arena.get a d).key?),
       .atom (if Arena.isInList a fuel id then "true" else "false")])
   return .list (.atom "nav" :: rows)
+
+end Iwe.GraphOps
+
+namespace Iwe.GraphOps
+open Iwe Codec
+
+/-- run import + steps, return the final graph -/
+def finalGraph (ext : String) (imp steps : List Sexp) : Except String (Except Site Graph) := do
+  let imp ← imp.mapM entry?
+  let steps ← steps.mapM entry?
+  match Graph.importDocs ext (imp.map fun (k, _, d) => (k, d)) with
+  | .error e => return .error e
+  | .ok g0 =>
+    let mut g := g0
+    for (k, _, d) in steps do
+      match g.updateKey k d with
+      | .error e => return .error e
+      | .ok g' => g := g'
+    return .ok g
+
+def libOf (g : Graph) : String → Option Tree := fun k =>
+  match g.collect k with
+  | .ok t => some t
+  | .error _ => none
+
+/-- `(graph.squash #ext (import …) (steps …) #key depth)` → `(squash <tree> <markdown>)` -/
+def squashOp (ext : String) (imp steps : List Sexp) (key : String) (depth : Nat) : Except String Sexp := do
+  match ← finalGraph ext imp steps with
+  | .error e => return .list [.atom "error", siteS e]
+  | .ok g =>
+    match g.collect key with
+    | .error e => return .list [.atom "error", siteS e]
+    | .ok t =>
+      let sq := Squash.squash (libOf g) depth t
+      return .list [.atom "squash", treeS sq, exceptS Sexp.str (Render.treeMarkdown (keyParent key) "" sq)]
+
+/-- `(search.sort empty (e rank textlen score)*)` → the order (indices) `global_search` returns -/
+def searchSort (empty : Bool) (entries : List Sexp) : Except String Sexp := do
+  let es ← entries.mapM fun e => match e with
+    | .list [.atom "e", r, l, s] => do return (← nat? r, ← nat? l, ← nat? s)
+    | _ => .error "bad entry"
+  let paths : List Paths.SearchPath := es.mapIdx fun i (r, l, _) =>
+    { text := String.ofList (List.replicate l 'a'), rank := r, key := "", root := false, line := i, path := [] }
+  let out := Paths.globalSearch paths (es.map fun (_, _, s) => s) empty
+  return .list (.atom "order" :: out.map fun sp => natS sp.line)
 
 end Iwe.GraphOps
